@@ -372,6 +372,28 @@ func c13Run(t *testing.T, r *vk.Reporter, id string, c *c13Case) (kind, detail s
 					kind, detail = "close-before-completed-write", fmt.Sprintf("stream %d: closing frame seq %d is numbered below frame %d of a write that had returned before Close was called", cs.st.id, closingSeq, fa[1])
 				}
 			}
+			// (4b) a Write is one unit: the frames of one Write call are not interleaved with frames of
+			// another Write call on the same stream (only a concurrent ReadFrom, which sends frame by
+			// frame, and the closing notice may fall in between)
+			for i, f := range fs {
+				o := owners[i]
+				if o == nil || o.readFrom {
+					continue
+				}
+				mm := frameOfWrite[o]
+				_ = f
+				for j := range fs {
+					if fs[j].seq <= mm[0] || fs[j].seq >= mm[1] {
+						continue
+					}
+					if oj := owners[j]; oj != nil && oj != o && !oj.readFrom {
+						kind, detail = "write-interleaved", fmt.Sprintf("stream %d: frame seq %d of another Write call lies between the frames (seq %d..%d) of one multi-frame Write: the bytes on the stream are not the writes in any order", cs.st.id, fs[j].seq, mm[0], mm[1])
+					}
+				}
+				if kind != "" {
+					break
+				}
+			}
 			cs.mu.Unlock()
 			if cs.closed && cs.closeErr == nil && closings < 1 {
 				kind, detail = "no-closing-frame", fmt.Sprintf("stream %d: Close returned nil but no closing frame is on the wire", cs.st.id)
@@ -398,6 +420,20 @@ func c13Run(t *testing.T, r *vk.Reporter, id string, c *c13Case) (kind, detail s
 func TestVerif_C13(t *testing.T) {
 	r := vk.Open()
 	defer r.Close()
+	for i := 0; i < 8; i++ {
+		id := fmt.Sprintf("late-duplicate-%d", i)
+		if !r.Mine(id) {
+			continue
+		}
+		r.Case(id, nil)
+		k, d := c13LateDuplicate(t, r, id, []byte{EncryptionMethodPlain, EncryptionMethodAES256GCM, EncryptionMethodChaha20Poly1305, EncryptionMethodAES128GCM}[i%4], i >= 4)
+		r.Distinct("cases", vk.Hash64("late", i))
+		if k != "" {
+			r.Violation(id, "C13:"+k, d, nil)
+		} else {
+			r.Pass(id)
+		}
+	}
 	methods := []byte{EncryptionMethodPlain, EncryptionMethodAES256GCM, EncryptionMethodChaha20Poly1305, EncryptionMethodAES128GCM}
 	sizeSets := [][]int{{8, 9, 64}, {8, rigMax, rigMax + 1}, {4 * rigMax, 100}, {1000, rigMax - 1, 2*rigMax + 3}, {16, 17}}
 	n := r.Pick(240, 5000)
@@ -434,4 +470,94 @@ func TestVerif_C13(t *testing.T) {
 			r.Pass(id)
 		}
 	}
+}
+
+// c13LateDuplicate: a session pair; stream X is opened, used and closed while another stream keeps
+// the session alive; much later (beyond the inactivity timeout) a duplicate of one of X's frames
+// reaches the acceptor again (a replayed or long-delayed record). Whatever the acceptor side then
+// does, it must not put a second message with an already used (stream id, seq) pair on the wire.
+func c13LateDuplicate(t *testing.T, r *vk.Reporter, id string, method byte, unordered bool) (kind, detail string) {
+	rng := r.Rand("c13late", id)
+	p, leftover := vk.InBubble(t, func() {
+		cfg := rigCfg{Method: method, NumConn: 1, Unordered: unordered, Seg: "all"}
+		g := newRigA(cfg, rng) // default inactivity timeout (30 s)
+		pp := g.addConn()
+		// server side: echo every accepted stream
+		go func() {
+			for {
+				c, err := g.srv.Accept()
+				if err != nil {
+					return
+				}
+				go func() {
+					buf := make([]byte, 20000)
+					for {
+						n, err := c.Read(buf)
+						if err != nil {
+							return
+						}
+						if _, err := c.Write(buf[:n]); err != nil {
+							return
+						}
+					}
+				}()
+			}
+		}()
+		keep, _ := g.cli.OpenStream()
+		keep.Write([]byte("keep the session alive"))
+		go io.Copy(io.Discard, keep)
+		x, _ := g.cli.OpenStream()
+		x.Write(vk.Datagram(1, 1, 300))
+		rb := make([]byte, 400)
+		x.SetReadDeadline(time.Now().Add(time.Minute))
+		x.Read(rb)
+		vk.Wait()
+		// remember X's first record as it went over the wire
+		wire, marks := pp.Wire(0)
+		var xrec []byte
+		for _, m := range marks {
+			rec := wire[m.Off : m.Off+int64(m.N)]
+			if len(rec) > 5 {
+				if f, err := g.ref.Decode(rec[5:]); err == nil && f.StreamID == x.id && f.Closing == 0 {
+					xrec = append([]byte{}, rec...)
+					break
+				}
+			}
+		}
+		x.Close()
+		vk.Wait()
+		time.Sleep(5 * time.Minute) // far beyond the inactivity timeout; the session lives on through `keep`
+		vk.Wait()
+		if xrec == nil || g.srv.IsClosed() {
+			kind, detail = "harness", "could not set the scenario up"
+			return
+		}
+		pp.A.Write(xrec) // the duplicate arrives
+		vk.Wait()
+		time.Sleep(time.Minute)
+		vk.Wait()
+		// every (stream id, seq) pair the acceptor side ever sent must be unique
+		down, dmarks := pp.Wire(1)
+		seen := map[[2]uint64]bool{}
+		for _, m := range dmarks {
+			rec := down[m.Off : m.Off+int64(m.N)]
+			f, err := g.ref.Decode(rec[5:])
+			if err != nil {
+				continue
+			}
+			k := [2]uint64{uint64(f.StreamID), f.Seq}
+			if seen[k] {
+				kind, detail = "seq-reused", fmt.Sprintf("after a duplicate of an old frame of the long-closed stream %d arrived, the endpoint sent a second message numbered (stream %d, seq %d) under the same session key: the cipher nonce repeats", x.id, f.StreamID, f.Seq)
+				return
+			}
+			seen[k] = true
+			r.Count("frames_checked", 1)
+		}
+		g.closeAll()
+		vk.Wait()
+	})
+	if p != nil && !leftover && kind == "" {
+		kind, detail = "panic", fmt.Sprint(p)
+	}
+	return
 }
